@@ -14,11 +14,13 @@ class Transc (α : Type) where
   cos : α → α
   sqrt : α → α
   pi : α
+  /-- `2**(1.0/6.0)` -/
+  root6two : α
 
 class Lit (α : Type) where
   ofNat : Nat → α
 
-instance : Transc Float := ⟨Float.exp, Float.log, Float.sin, Float.cos, Float.sqrt, 3.141592653589793⟩
+instance : Transc Float := ⟨Float.exp, Float.log, Float.sin, Float.cos, Float.sqrt, 3.141592653589793, 1.122462048309373⟩
 instance : Lit Float := ⟨Float.ofNat⟩
 
 /-- `tab n f` is the array `[f 0, …, f (n-1)]` (numpy: a freshly allocated 1-d array). -/
